@@ -196,7 +196,7 @@ func c12Run(c c12Case) []*core.Violation {
 	return nil
 }
 
-func c12Gen(t *rapid.T) c12Case {
+func c12GenBase(t *rapid.T) c12Case {
 	o := gen.GenOpts{
 		Encodings: []string{"quoted-printable", "base64", "8bit"}, MaxParts: 3, MaxEmbeds: 2, MaxAttach: 2, AllowNoBody: true,
 		PartEncs: []string{"", "", "quoted-printable", "base64", "8bit"}, FileEncs: []string{"", "", "base64", "8bit"},
@@ -223,44 +223,101 @@ func c12Gen(t *rapid.T) c12Case {
 	if c.Sign {
 		c.Spec.FixedDate = false
 	}
+	return c
+}
+
+func c12Gen(t *rapid.T) c12Case {
+	c := c12GenBase(t)
 	// one case in three: a producer fault instead of sink faults
 	if rapid.IntRange(0, 2).Draw(t, "prodfault") == 0 {
-		n := len(spec.Parts) + len(spec.Embeds) + len(spec.Attachments)
-		idx := rapid.IntRange(0, n-1).Draw(t, "which")
-		var p *gen.Producer
-		var content []byte
-		switch {
-		case idx < len(spec.Parts):
-			p, content = &c.Spec.Parts[idx].Prod, c.Spec.Parts[idx].Content
-		case idx < len(spec.Parts)+len(spec.Embeds):
-			p, content = &c.Spec.Embeds[idx-len(spec.Parts)].Prod, c.Spec.Embeds[idx-len(spec.Parts)].Content
-		default:
-			k := idx - len(spec.Parts) - len(spec.Embeds)
-			p, content = &c.Spec.Attachments[k].Prod, c.Spec.Attachments[k].Content
-		}
-		p.Fail = true
-		p.FailAfter = rapid.IntRange(0, len(content)).Draw(t, "failafter")
-		c.SecondRender = false
+		c12ArmProducerFault(t, &c)
 	} else if rapid.IntRange(0, 3).Draw(t, "deletefiles") == 0 {
-		for i := range c.Spec.Attachments {
-			if c.Spec.Attachments[i].Source == "file" {
-				c.DeleteFiles = true
-			}
-		}
-		for i := range c.Spec.Embeds {
-			if c.Spec.Embeds[i].Source == "file" {
-				c.DeleteFiles = true
-			}
-		}
+		c12ArmDeleteFiles(&c)
 	}
 	return c
+}
+
+// c12ArmProducerFault lets one producer of the program fail after 0..len bytes.
+func c12ArmProducerFault(t *rapid.T, c *c12Case) {
+	spec := &c.Spec
+	n := len(spec.Parts) + len(spec.Embeds) + len(spec.Attachments)
+	idx := rapid.IntRange(0, n-1).Draw(t, "which")
+	var p *gen.Producer
+	var content []byte
+	switch {
+	case idx < len(spec.Parts):
+		p, content = &spec.Parts[idx].Prod, spec.Parts[idx].Content
+	case idx < len(spec.Parts)+len(spec.Embeds):
+		p, content = &spec.Embeds[idx-len(spec.Parts)].Prod, spec.Embeds[idx-len(spec.Parts)].Content
+	default:
+		k := idx - len(spec.Parts) - len(spec.Embeds)
+		p, content = &spec.Attachments[k].Prod, spec.Attachments[k].Content
+	}
+	p.Fail = true
+	p.FailAfter = rapid.IntRange(0, len(content)).Draw(t, "failafter")
+	gen.FaultFlavour(t, spec, idx, true)
+	c.SecondRender = false
+}
+
+func c12ArmDeleteFiles(c *c12Case) {
+	for i := range c.Spec.Attachments {
+		if c.Spec.Attachments[i].Source == "file" {
+			c.DeleteFiles = true
+		}
+	}
+	for i := range c.Spec.Embeds {
+		if c.Spec.Embeds[i].Source == "file" {
+			c.DeleteFiles = true
+		}
+	}
+}
+
+// c12Batch: many programs with a producer-side fault each (one render per program, cheap), so that
+// this half of the property gets thousands of programs per run and not only the third of the few
+// programs that TestC12 can afford (it tries every sink offset).
+type c12Batch struct {
+	Cases []c12Case `json:"cases"`
+}
+
+func c12BatchGen(t *rapid.T) c12Batch {
+	var b c12Batch
+	n := rapid.IntRange(1, 40).Draw(t, "nprograms")
+	for i := 0; i < n; i++ {
+		c := c12GenBase(t)
+		if rapid.IntRange(0, 3).Draw(t, "kind") == 0 {
+			c12ArmDeleteFiles(&c)
+			if !c.DeleteFiles {
+				c12ArmProducerFault(t, &c)
+			}
+		} else {
+			c12ArmProducerFault(t, &c)
+		}
+		b.Cases = append(b.Cases, c)
+	}
+	return b
+}
+
+func c12BatchRun(b c12Batch) []*core.Violation {
+	for i, c := range b.Cases {
+		if vs := c12Run(c); len(vs) > 0 {
+			for _, v := range vs {
+				v.Msg = fmt.Sprintf("program %d of the batch: %s", i, v.Msg)
+			}
+			return vs
+		}
+	}
+	return nil
+}
+
+func TestC12Prod(t *testing.T) {
+	core.Prop[c12Batch]{ID: "C12", Test: "TestC12Prod", Gen: c12BatchGen, Run: c12BatchRun}.Check(t)
 }
 
 func TestC12(t *testing.T) {
 	rec := core.Rec("C12")
 	rec.Rule = "message programs drawn by rapid (0..3 parts, 0..2 embeds, 0..2 attachments, 3 encodings, all file sources, contents <= 90 bytes); " +
 		"for each program EVERY sink offset k in [0,len(output)) is tried in two sink modes (partial accept / whole-write refusal), on the first or the second render; " +
-		"one program in three instead has one producer failing after 0..len bytes, or its on-disk attachment files deleted before (or between) renders; one program in six is S/MIME-signed (ECDSA; offsets up to 64 bytes before the end, because boundary and signature change per render). Non-trivial: every faulty render; distinct by (shape incl. per-leaf encoding and content classes, decile of k for multipart messages, sink mode, render index)."
+		"one program in three instead has one producer failing after 0..len bytes (custom writer functions, or the caller's io.ReadSeeker behind the library's own AttachReadSeeker/EmbedReadSeeker producer failing in Read or in the rewind; error values ErrInjected, io.EOF, a wrapped io.EOF, io.ErrUnexpectedEOF, io.ErrClosedPipe), or its on-disk attachment files deleted before (or between) renders; TestC12Prod runs batches of up to 40 such producer-fault programs per case; one program in six is S/MIME-signed (ECDSA; offsets up to 64 bytes before the end, because boundary and signature change per render). Non-trivial: every faulty render; distinct by (shape incl. per-leaf encoding and content classes, decile of k for multipart messages, sink mode, render index)."
 	rec.Assumptions = []string{"sinks obey the io.Writer contract (n<len(p) only together with an error) and keep failing after the first failure"}
 	core.Prop[c12Case]{ID: "C12", Test: "TestC12", Gen: c12Gen, Run: c12Run}.Check(t)
 }
